@@ -203,6 +203,15 @@ func (p *Program) Fn(ref string) *ssa.Function {
 	var fn *ssa.Function
 	switch len(parts) {
 	case 1:
+		if strings.HasPrefix(parts[0], "init#") {
+			// source-level init functions are package members "init#1", "init#2", …
+			if sp := p.SSA.Package(tp); sp != nil {
+				if f, ok := sp.Members[parts[0]].(*ssa.Function); ok {
+					return f
+				}
+			}
+			return nil
+		}
 		obj, _ := tp.Scope().Lookup(parts[0]).(*types.Func)
 		if obj == nil {
 			return nil
